@@ -6,6 +6,8 @@
 -/
 import T2N.Lemmas.Scanner
 import T2N.Props.C02
+import T2N.Lemmas.Strict
+import T2N.Lemmas.LangFacts
 
 namespace T2N.C06
 open T2N
@@ -68,5 +70,66 @@ theorem C06_formatDecimal_consistent (l : Lang) (i d : DS) (t : Word) (v : Value
   · cases h
   · cases h
     exact Or.inr (Or.inr (Or.inr ⟨i.render, d.render, rfl, rfl⟩))
+
+/-! ### strict spans: every occurrence covers at least one token -/
+
+theorem pushAll_strict (cfg : ScanCfg) (hl : LangOk cfg.lang) (toks : List Tok) :
+    ∀ (s s' : Scanner) (pos : Nat), ScInv s pos → SInv s →
+      Scanner.pushAll cfg s (enumFrom pos toks) = .ok s' → SInv s' ∧ ScInv s' (pos + toks.length) := by
+  induction toks with
+  | nil => intro s s' pos h1 h2 he; cases he; exact ⟨h2, h1⟩
+  | cons t ts ih =>
+    intro s s' pos h1 h2 he
+    simp only [enumFrom, Scanner.pushAll] at he
+    obtain ⟨s1, e1, i1⟩ := push_ok cfg s pos t h1
+    rw [e1] at he
+    have hs1 := push_strict cfg hl s s1 pos t h2 h1.2.1 e1
+    obtain ⟨a, b⟩ := ih s1 s' (pos + 1) i1 hs1 he
+    refine ⟨a, ?_⟩
+    simpa [Nat.add_assoc, Nat.add_comm 1] using b
+
+/-- **C06 (strict spans)**: for a language that satisfies `LangOk`, every reported occurrence has
+`start < end` (it covers at least one token). -/
+theorem C06_strict (cfg : ScanCfg) (hl : LangOk cfg.lang) (toks : List Tok) (occs : List Occ)
+    (h : findNumbers cfg toks = .ok occs) : ∀ o ∈ occs, o.start < o.stop := by
+  unfold findNumbers at h
+  cases h1 : Scanner.pushAll cfg {} (enumFrom 0 toks) with
+  | error f => rw [h1] at h; cases h
+  | ok s1 =>
+    rw [h1] at h
+    dsimp only at h
+    obtain ⟨hs, hi⟩ := pushAll_strict cfg hl toks {} s1 0 TrInv.init SInv.init h1
+    unfold Scanner.finalize at h
+    by_cases hn : s1.parser.hasNumber = true
+    · rw [if_pos hn] at h
+      cases h2 : s1.numberEnd cfg with
+      | error f => rw [h2] at h; cases h
+      | ok s2 =>
+        rw [h2] at h; cases h
+        have := numberEnd_strict cfg s1 s2 hs hn h2
+        intro o ho
+        exact this.2.2.2 o (List.mem_append_left _ ho)
+    · rw [if_neg hn] at h; cases h
+      intro o ho
+      exact hs.2.2.2 o (List.mem_append_left _ ho)
+
+theorem isEmpty_of_same {b b' : DS} (h : SameButFlags b b') : b'.isEmpty = b.isEmpty := by
+  unfold DS.isEmpty; rw [h.1, h.2.1]
+
+/-- the seven built-in interpreters satisfy `LangOk` -/
+theorem C06_langOk_en : LangOk En.lang :=
+  ⟨fun w b e h => isEmpty_of_same (En.apply_err_same w b e h), fun w b h => En.apply_ok_nonempty w b h⟩
+theorem C06_langOk_fr : LangOk Fr.lang :=
+  ⟨fun w b e h => isEmpty_of_same (Fr.apply_err_same w b e h), fun w b h => Fr.apply_ok_nonempty w b h⟩
+theorem C06_langOk_es : LangOk Es.lang :=
+  ⟨fun w b e h => isEmpty_of_same (Es.apply_err_same w b e h), fun w b h => Es.apply_ok_nonempty w b h⟩
+theorem C06_langOk_pt : LangOk Pt.lang :=
+  ⟨fun w b e h => isEmpty_of_same (Pt.apply_err_same w b e h), fun w b h => Pt.apply_ok_nonempty w b h⟩
+theorem C06_langOk_it : LangOk It.lang :=
+  ⟨fun w b e h => isEmpty_of_same (It.apply_err_same w b e h), fun w b h => It.apply_ok_nonempty w b h⟩
+theorem C06_langOk_de : LangOk De.lang :=
+  ⟨fun w b e h => isEmpty_of_same (De.apply_err_same w b e h), fun w b h => De.apply_ok_nonempty w b h⟩
+theorem C06_langOk_nl : LangOk Nl.lang :=
+  ⟨fun w b e h => isEmpty_of_same (Nl.apply_err_same w b e h), fun w b h => Nl.apply_ok_nonempty w b h⟩
 
 end T2N.C06
